@@ -958,7 +958,9 @@ def equatorial2ecliptical(right_ascension, declination, obliquity):
     dec = declination.rad()
     eps = obliquity.rad()
     lon = atan2((sin(ra) * cos(eps) + tan(dec) * sin(eps)), cos(ra))
-    lat = asin(sin(dec) * cos(eps) - cos(dec) * sin(eps) * sin(ra))
+    sin_lat = sin(dec) * cos(eps) - cos(dec) * sin(eps) * sin(ra)
+    # Rounding may push the value slightly beyond +/-1 near the poles
+    lat = asin(max(-1.0, min(1.0, sin_lat)))
     lon = Angle(lon, radians=True)
     lon = lon.to_positive()
     lat = Angle(lat, radians=True)
@@ -1002,7 +1004,9 @@ def ecliptical2equatorial(longitude, latitude, obliquity):
     lat = latitude.rad()
     eps = obliquity.rad()
     ra = atan2((sin(lon) * cos(eps) - tan(lat) * sin(eps)), cos(lon))
-    dec = asin(sin(lat) * cos(eps) + cos(lat) * sin(eps) * sin(lon))
+    sin_dec = sin(lat) * cos(eps) + cos(lat) * sin(eps) * sin(lon)
+    # Rounding may push the value slightly beyond +/-1 near the poles
+    dec = asin(max(-1.0, min(1.0, sin_dec)))
     ra = Angle(ra, radians=True)
     ra = ra.to_positive()
     dec = Angle(dec, radians=True)
@@ -1065,7 +1069,9 @@ def equatorial2horizontal(hour_angle, declination, geo_latitude):
     dec = declination.rad()
     lat = geo_latitude.rad()
     azi = atan2(sin(h), (cos(h) * sin(lat) - tan(dec) * cos(lat)))
-    ele = asin(sin(lat) * sin(dec) + cos(lat) * cos(dec) * cos(h))
+    sin_ele = sin(lat) * sin(dec) + cos(lat) * cos(dec) * cos(h)
+    # Rounding may push the value slightly beyond +/-1 near the poles
+    ele = asin(max(-1.0, min(1.0, sin_ele)))
     azi = Angle(azi, radians=True)
     ele = Angle(ele, radians=True)
     return (azi, ele)
@@ -1121,7 +1127,9 @@ def horizontal2equatorial(azimuth, elevation, geo_latitude):
     ele = elevation.rad()
     lat = geo_latitude.rad()
     h = atan2(sin(azi), (cos(azi) * sin(lat) + tan(ele) * cos(lat)))
-    dec = asin(sin(lat) * sin(ele) - cos(lat) * cos(ele) * cos(azi))
+    sin_dec = sin(lat) * sin(ele) - cos(lat) * cos(ele) * cos(azi)
+    # Rounding may push the value slightly beyond +/-1 near the poles
+    dec = asin(max(-1.0, min(1.0, sin_dec)))
     h = Angle(h, radians=True)
     dec = Angle(dec, radians=True)
     return (h, dec)
@@ -1169,7 +1177,9 @@ def equatorial2galactic(right_ascension, declination):
     lon = Angle(-x, radians=True)
     lon = 303.0 + lon
     lon = lon.to_positive()
-    lat = asin(sin(dec) * sin(c2) + cos(dec) * cos(c2) * cos(c1ra))
+    sin_lat = sin(dec) * sin(c2) + cos(dec) * cos(c2) * cos(c1ra)
+    # Rounding may push the value slightly beyond +/-1 near the poles
+    lat = asin(max(-1.0, min(1.0, sin_lat)))
     lat = Angle(lat, radians=True)
     return (lon, lat)
 
@@ -1215,7 +1225,9 @@ def galactic2equatorial(longitude, latitude):
     y = Angle(y, radians=True)
     ra = y + 12.25
     ra.to_positive()
-    dec = asin(sin(lat) * sin(c2) + cos(lat) * cos(c2) * cos(lc1))
+    sin_dec = sin(lat) * sin(c2) + cos(lat) * cos(c2) * cos(lc1)
+    # Rounding may push the value slightly beyond +/-1 near the poles
+    dec = asin(max(-1.0, min(1.0, sin_dec)))
     dec = Angle(dec, radians=True)
     return (ra, dec)
 
